@@ -960,8 +960,29 @@ pub fn suite_cap(ctx: &mut Ctx) {
             }
             let mut rng = Rng::new(ctx.seed ^ 0x701e ^ (i as u64).wrapping_mul(0x9E3779B97F4A7C15));
             let n = if i % 2 == 0 { rng.range(3, 40) } else { rng.range(101, 150) };
-            let old: Vec<Near> = (0..n).map(|k| Near(3 * k as i64 + rng.below(2) as i64)).collect();
-            let mut new: Vec<Near> = old.iter().map(|x| Near(x.0 + rng.below(3) as i64 - 1)).collect();
+            // first half: cluster centres 10k, the same on both sides; second half: old has 10j - 1 where new has 10j + 1 --
+            // both are `==` to the centre 10j seen earlier, but not to each other (so they may never be paired), mixed with
+            // readings that do match within the tolerance
+            let h = n / 2;
+            let mut old: Vec<Near> = (0..h).map(|k| Near(10 * k as i64)).collect();
+            let mut new: Vec<Near> = old.clone();
+            for _ in h..n {
+                let j = rng.below(h.max(1)) as i64;
+                match rng.below(3) {
+                    0 => {
+                        old.push(Near(10 * j - 1));
+                        new.push(Near(10 * j + 1));
+                    }
+                    1 => {
+                        old.push(Near(10 * j + 1));
+                        new.push(Near(10 * j - 1));
+                    }
+                    _ => {
+                        old.push(Near(10 * j));
+                        new.push(Near(10 * j + 1));
+                    }
+                }
+            }
             for _ in 0..rng.below(4) {
                 let at = rng.below(new.len());
                 new[at] = Near(new[at].0 + 1);
@@ -971,7 +992,7 @@ pub fn suite_cap(ctx: &mut Ctx) {
                 new.remove(at);
             }
             let alg = ALGS[i % 3];
-            let req = format!("capture {} - 0 | <{} readings 3k + noise, == means |a-b| <= 1> | <the same readings jittered by at most 1, a few by 2> | 0 {} 0 {}", alg_name(alg), n, old.len(), new.len());
+            let req = format!("capture {} - 0 | <{} readings: cluster centres 10k, then readings 10j-1 / 10j+1 / 10j, == means |a-b| <= 1> | <the centres, then 10j+1 / 10j-1 / 10j+1> | 0 {} 0 {}", alg_name(alg), n, old.len(), new.len());
             let r = std::panic::catch_unwind(|| similar::capture_diff_slices(alg, &old, &new));
             ctx.count("cap.tolerance_item_cases");
             match r {
